@@ -27,7 +27,7 @@ CHECKS = {
  "C02": ("RunnerLab", "model-based PBT: generated features x outcome plans x harness-owned schedules against the real runner; per-attempt reference automaton + fault accounting; proptest generation/shrinking; bounded-exhaustive schedule DFS for small cases",
          "Every attempt observed in thousands of generated runs (all outcome kinds at every position, hooks, retries, concurrent interleavings chosen by the harness) equals the prediction of an independent reference model of one attempt; all schedules of small cases enumerated. Exploration: evidence within the generated bounds, no proof.",
          "Shared background steps / World::new are judged by admissibility + global accounting. Trusts the harness driver and the 60-line model.", "6/C02"),
- "C03": ("RunnerLab", "PBT with validity predicate over the whole event stream (framing / bracket nesting / ParsingFinished counts) under generated parser behaviours and schedules; exhaustive schedules of small cases",
+ "C03": ("RunnerLab", "PBT with validity predicate over the whole event stream (framing / bracket nesting / ParsingFinished counts) under generated parser behaviours and schedules; exhaustive schedules of small cases; a second campaign applies the same predicate to the crate built with its `tracing` feature (vtrace: log bursts, child spans outliving their step, logs from detached threads)",
          "Validity predicate over the full stream for generated feature sets (empty features/rules, parser errors, lazy delivery, retries, fail-fast) under harness-chosen completion orders.",
          "ParsingFinished.steps compared with scenario steps only (reading R3).", "6/C03"),
  "C04": ("RunnerLab", "PBT over lazy parser streams (items behind gates released at harness-chosen quiescent points) with set-equality oracle, bounded-progress termination criteria (H1 idle-turn hook, stall detection) and a resumption invariant (every future whose gate the schedule opened has been polled again before the runner goes quiet); a second campaign judges termination on the crate built with its `tracing` feature (vtrace, callbacks leaving child spans alive)",
@@ -39,7 +39,7 @@ CHECKS = {
  "C06": ("RunnerLab", "PBT with prefix invariant (in-flight <= limit in stream and in callback log) and refill predicate at harness quiescent points; exhaustive completion orders of small cases",
          "In-flight bound over every stream prefix and callback-log instant, refill after each completion, strict sequencing at limit 1; all completion orders for small cases.",
          "Refill obligation evaluated under reading R5.", "6/C06"),
- "C07": ("RunnerLab", "PBT with interval-exclusion oracle in stream, callback log and dispatch hook (H2) under lazy delivery, delayed serial retries and harness-chosen schedules incl. sleeping past retry deadlines",
+ "C07": ("RunnerLab", "PBT with interval-exclusion oracle in stream, callback log and dispatch hook (H2) under lazy delivery, delayed serial retries and harness-chosen schedules incl. sleeping past retry deadlines; a second campaign applies the stream oracle to the crate built with its `tracing` feature (vtrace)",
          "No foreign scenario event / user callback / dispatch inside any serial attempt, for generated mixes of serial and concurrent scenarios, lazy parsers, delayed retries; exhaustive schedules of small cases.",
          "Retry deadlines use real time; the driver may sleep past them as a schedule action.", "6/C07"),
  "C08": ("RunnerLab", "PBT with dispatch-cut oracle (H2 batches vs H3 observation of the first final failure), bracket closure predicate and metamorphic fail-fast/normal pair",
